@@ -1195,9 +1195,28 @@ impl World {
             }
             K::MExtendIter => {
                 // Extend<u8> (b = 0) / Extend<&u8> (b = 1) with an exact size hint
+                // (b = 2: Extend<Bytes> with one static chunk; b = 3: Extend<Bytes> with one uniquely held Vec-backed chunk)
                 let d = self.fresh(op.a);
                 let by_ref = op.b == 1;
-                let r = self.call(|w| if by_ref { w.m(s).extend(d.iter()) } else { w.m(s).extend(d.iter().cloned()) });
+                let mode = op.b;
+                let r = self.call(|w| match mode {
+                    2 => {
+                        let st: &'static [u8] = oracle::harness(|| Box::leak(d.clone().into_boxed_slice()));
+                        w.m(s).extend([Bytes::from_static(st)])
+                    }
+                    3 => {
+                        let mut v = Vec::with_capacity(d.len() + 1);
+                        v.extend_from_slice(&d);
+                        w.m(s).extend([Bytes::from(v)])
+                    }
+                    _ => {
+                        if by_ref {
+                            w.m(s).extend(d.iter())
+                        } else {
+                            w.m(s).extend(d.iter().cloned())
+                        }
+                    }
+                });
                 match r {
                     Ok(()) => self.model(s).extend_from_slice(&d),
                     Err(()) => panicked = true,
